@@ -12,9 +12,10 @@ ID = "C01"
 READY = True
 LEAN_TARGETS = ["NauyacaVerif.Props.C01"]
 THEOREMS = ['NauyacaVerif.C01.render_wf', 'NauyacaVerif.C01.trace_shape', 'NauyacaVerif.C01.nothing_after_close', 'NauyacaVerif.C01.trace_progress', 'NauyacaVerif.C01.line_decides', 'NauyacaVerif.C01.lost_silent', 'NauyacaVerif.C01.fixedMetas_clean', 'NauyacaVerif.C01.pump_trace_shape', 'NauyacaVerif.C01.pump_silent_before_handshake', 'NauyacaVerif.C01.maxMeta_tie', 'NauyacaVerif.C01.writeChunk_tie', 'NauyacaVerif.C01.flow_pieces', 'NauyacaVerif.C01.flow_writes_prefix', 'NauyacaVerif.C01.flow_closed_complete', 'NauyacaVerif.C01.flow_quiet', 'NauyacaVerif.C01.flow_resume_finishes', 'NauyacaVerif.C01.maxRequest_tie', 'NauyacaVerif.C01.sys_silent_before_decision', 'NauyacaVerif.C01.sys_decided_wellformed', 'NauyacaVerif.C01.sys_written_prefix', 'NauyacaVerif.C01.sys_trace_shape', 'NauyacaVerif.C01.sys_closed_complete', 'NauyacaVerif.C01.sys_lost_quiet', 'NauyacaVerif.C01.sys_resume_completes']
-LEAN_TARGETS = LEAN_TARGETS + ["NauyacaVerif.Props.Tr.PumpResponse"]
-TRANSLATED = ["pumpResponse", "resumeWriting", "pauseWriting", "connectionLost", "sendResponse"]
-THEOREMS = THEOREMS + [f"NauyacaVerif.Translated.{t}" for t in ("loop_eq", "pump_eq", "resume_eq", "pause_eq", "lost_eq", "resume_reachable", "send_eq", "send_reachable")]
+LEAN_TARGETS = LEAN_TARGETS + ["NauyacaVerif.Props.Tr.PumpResponse", "NauyacaVerif.Props.Tr.Results"]
+TRANSLATED = ["pumpResponse", "resumeWriting", "pauseWriting", "connectionLost", "sendResponse", "handleHandlerResult", "handleUploadResult"]
+THEOREMS = THEOREMS + [f"NauyacaVerif.Translated.{t}" for t in ("loop_eq", "pump_eq", "resume_eq", "pause_eq", "lost_eq", "resume_reachable", "send_eq", "send_reachable",
+                                                                     "handleHandlerResult_eq", "handleUploadResult_eq", "handler_result_answers")]
 EXTRACT = ["maxMeta", "maxRequest", "serverWriters", "writeChunk"]
 EXTRACT_EXPECT = {"serverWriters": ["_pump_response"]}  # every transport.write of the server protocol sits in one function
 LEVEL_TEXT = "Proved for every configuration and EVERY event list (all orderings of reads, timer, middleware/handler/upload completions of any outcome, disconnect): the output trace is empty or one well-formed response (two digits 10-69, space, meta without CR/LF <= 1024 bytes, CRLF, body only with 2x; for every status/meta/body incl. lone surrogates) followed by close, nothing after close, nothing after a disconnect, a decided request with no pending task IS answered, a complete line / >1024 bytes always decides (for every segmentation); lifted to the PyOpenSSL pump model; and for the write pump under flow control (M-Flow: responses are handed to the transport in pieces, pause/resume at any point): writes are always an in-order prefix of the pieces, close only after all of them, nothing while paused. The correspondence compares the real GeminiServerProtocol byte-for-byte and event-by-event (when the response is written) with the model, and the real pump over memory-BIO TLS. Partial: the stdlib TLS backend is asyncio's transport (identity transport in the model); texts of exception-derived metas are only checked for well-formedness."
